@@ -125,7 +125,11 @@ def run(ctx):
         ctx.fn(b)
 
     wa = prog.one("local::write_atomic::{closure#0}")
-    inner = prog.one("local::write_atomic::{closure#0}::{closure#0}")
+    # the async block inside write_atomic: the one coroutine nested in its body (whatever its closure index is)
+    inner = None
+    if wa is not None:
+        cos = [c for c in prog.closures_of(wa) if c.coroutine]
+        inner = cos[0] if len(cos) == 1 else None
     if wa is None or inner is None or not wa.coroutine:
         ctx.missing("R1.order", "cbh_storage::local::write_atomic coroutine bodies")
         return
@@ -191,7 +195,7 @@ def run(ctx):
             ok8, why = consumed(body, a[bb])
             ctx.ob("R8.write-errors-propagate", nm, ok8, body.loc(t["span"]), why)
     ip8 = [bb for bb, t in wa.calls() if t["callee"].get("method") == "poll" and
-           (t["callee"].get("resolved") or "").endswith("write_atomic::{closure#0}::{closure#0}")]
+           inner is not None and strip_generics(t["callee"].get("resolved") or "") == inner.key]
     for pbb in ip8:
         ok8, why = consumed(wa, pbb)
         ctx.ob("R8.write-errors-propagate", "inner-block", ok8, wa.loc(), why)
@@ -212,7 +216,7 @@ def run(ctx):
     aw_o = awaited(wa)
     dom_o = wa.dominators(unwind=False)
     inner_polls = [bb for bb, t in wa.calls() if t["callee"].get("method") == "poll" and
-                   (t["callee"].get("resolved") or "").endswith("write_atomic::{closure#0}::{closure#0}")]
+                   inner is not None and strip_generics(t["callee"].get("resolved") or "") == inner.key]
     ok = len(ren) == 1 and len(inner_polls) == 1
     det = f"rename sites={len(ren)}, polls of the inner block={len(inner_polls)}"
     if ok:
